@@ -248,6 +248,7 @@ BASE_CONFIGS = [
     ([4, 6], 3, 5, 0, 0, 2),
     ([2, 3, 2], 2, 1, 2, 2, 2),      # growth by two on nearly square unfoldings (fewer free rows than dr_min)
     ([3, 2], 2, 1, 2, 3, 2),
+    ([3, 2, 5, 2], 1, 1, 0, 0, 4),   # rank one, fixed rank: evaluation / cache-hit counters (12, 12), (12, 36), (12, 60): m_cache = 5 m exactly after 3 sweeps
 ]
 
 
@@ -272,8 +273,10 @@ def fault_suite(n, rho, r0, drm, drM, nswp, cache, seed, dense_budgets=False):
     # an objective with exact zeros (a cached 0.0 is still a cache hit)
     out.append(record(n, rho, r0, drm, drM, max(2, nswp or 0), cache, seed=seed, zeros=True)[0])
     out.append(record(n, rho, r0, drm, drM, max(2, nswp or 0), cache, seed=seed, zeros=True, m=max(1, M // 2))[0])
-    if cache:
-        out.append(record(n, rho, r0, drm, drM, nswp, cache, mcs=1, seed=seed)[0])
+    # the cache-convergence stop "m_cache > m_cache_scale * m" at and around equality: scale 0 (without a cache 0 > 0 never
+    # holds), and every small scale (the counters of fixed-rank runs are integer multiples of each other, so ties occur)
+    for mcs_ in (0, 1, 2, 3, 5) if cache else (0,):
+        out.append(record(n, rho, r0, drm, drM, max(nswp or 0, 4) if drM == 0 else nswp, cache, mcs=mcs_, seed=seed)[0])
     # accuracy-driven stops
     out.append(record(n, rho, r0, drm, drM, 12, cache, e=1e-6, m=4000, seed=seed)[0])
     out.append(record(n, rho, r0, drm, drM, nswp, cache, e_vld=1e-8, vld=True, seed=seed)[0])
